@@ -5,6 +5,7 @@
 //! Output: for each case `#<index>` (flushed before the case runs, so that a
 //! process-killing fault is attributed to it), then its transcript lines.
 mod args;
+mod dom_cast;
 mod dom_common;
 mod dom_hdr;
 mod dom_mbi;
@@ -43,8 +44,9 @@ pub fn res_str(r: Result<String, ()>) -> String {
 fn run_case(ctx: &mut Ctx, dom: &str, a: &[Arg]) {
     match dom {
         "c14" | "align" | "conv" | "conveq" | "elfty" | "fb" | "magic" => dom_common::run(ctx, dom, a),
-        "mbiwalk" | "mbinull" | "iters" => dom_mbi::run(ctx, dom, a),
-        "hdrwalk" | "hdrnull" | "find" | "cksum" => dom_hdr::run(ctx, dom, a),
+        "mbi" | "mbiwalk" | "mbinull" | "iters" => dom_mbi::run(ctx, dom, a),
+        "hdr" | "hdrwalk" | "hdrnull" | "find" | "cksum" => dom_hdr::run(ctx, dom, a),
+        "cast" => dom_cast::run(ctx, a),
         _ => ctx.out.push("BADDOMAIN".into()),
     }
 }
